@@ -171,6 +171,11 @@ def gen_options(rng, world, country, facts, swarm=None, allow_neg=False):
     opts["lang"] = rng.choice([None] + langs) if langs and rng.random() < 0.6 else None
     f, t = gen_window(rng, world, country) if swarm.get("window", True) else (None, None)
     opts["from"], opts["to"] = f, t
+    # the optional generators field of [general]: a non-empty subset of the entry point's report generators
+    world["generators"] = None
+    if rng.random() < 0.15 and facts.get("generators"):
+        gs = list(facts["generators"])
+        world["generators"] = sorted(rng.sample(gs, rng.randint(1, len(gs))))
     opts["neg"] = bool(allow_neg)
     if not allow_neg and rng.random() < 0.1:
         opts["neg"] = True
@@ -180,6 +185,7 @@ def gen_options(rng, world, country, facts, swarm=None, allow_neg=False):
     opts["outdir"] = rng.choice(["out", "out", "out/", "nested/x/y", "ABS", None, "out.d", "INPUTDIR", "."])
     opts["path_style"] = rng.choice(["rel", "rel", "abs", "dot"])
     opts["files_in"] = rng.choice(["", "", "inputs/", "cfg dir/"])
+    opts["cwd_shape"] = rng.choice([None, None, None, None, "under_log", "under_output"])
     # the config may be called anything; the spreadsheet must end in .ods
     opts["file_names"] = rng.choice([None, None, None, ["rp2.conf", "w0.ods"], ["legacy.json", "data.ods"], ["config", "in put.ods"], ["My Config.INI", "2021.final.ods"]])
     env = {}
@@ -197,6 +203,6 @@ def gen_prestate(rng, opts):
         return items
     n = rng.randint(1, 4)
     for _ in range(n):
-        k = rng.choice(["stale_report", "stale_report", "unrelated", "tmp_like", "bak", "old_log", "readonly_stale", "subdir", "symlink_stale", "dangling_symlink_stale", "hardlink_stale"])
+        k = rng.choice(["stale_report", "stale_report", "unrelated", "tmp_like", "bak", "old_log", "readonly_stale", "subdir", "symlink_stale", "dangling_symlink_stale", "hardlink_stale", "many_old_logs"])
         items.append(k)
     return items
